@@ -20,12 +20,12 @@ EXPLANATION = ("HuntCrossleyForce (through GeneralContactSubsystem: sphere on ha
                "fn*[min(vs/vt,1)(ud+2(us-ud)/(1+(vs/vt)^2))+uv vs] along the slip direction, applied at the documented contact point with "
                "equal and opposite reaction, and zero when f <= 0 or when there is no penetration; so the normal component is f > 0 or 0, never "
                "attractive, for the non-smooth models; PE = (2/5) k x^(5/2); (3) the friction part is orthogonal to the normal; (4) the "
-               "documented friction factor lies in [0, us + uv vs] for 0 <= ud <= us, uv >= 0 (so friction opposes slip and never exceeds "
-               "(us + uv vs) fn) [inequality over 4 fresh variables]. x^(3/2) is x*sqrt(x); E^(2/3), tanh and exp are uninterpreted functions "
+               "documented friction factor min(w,1)(ud+2(us-ud)/(1+w^2)), w=vs/vt, lies in [0, us] for 0 <= ud <= us (the viscous term uv vs >= 0 is added "
+               "on top), so friction opposes slip and never exceeds (us + uv vs) fn [inequalities over 3 fresh variables, denominator 1+w^2 cleared]. x^(3/2) is x*sqrt(x); E^(2/3), tanh and exp are uninterpreted functions "
                "shared by code and oracle. SmoothSphereHalfSpaceForce: force array and PE equal the documented smooth formulas. "
-               "ExponentialSpringForce: fz = d1 exp(-d2(pz-d0))(1 - cz vz) clamped to [0, maxFz], friction accessor in the contact plane, "
-               "|friction|^2 <= (mu fz)^2 as an exact polynomial inequality on the reported quantities for Sliding=1, force array = normal + friction at the station "
-               "with reaction on Ground.")
+               "ExponentialSpringForce (default state, Sliding = 1): fz = d1 exp(-d2(pz-d0))(1 - cz vz) clamped to [0, maxFz] (three branches), "
+               "mu and the friction limit mu fz, friction in the contact plane, = -cxy vxy below the limit and = -(mu fz) vxy/|vxy| when the limit is "
+               "reached, zero without normal force; force array = normal + friction at the station with equal and opposite reaction on Ground.")
 BOUNDS = ("models of spec/C37.py; u and 'lin' parameters (dissipation) free, coordinates and geometric/material parameters pinned at exact "
           "base points (2 quick / 6 thorough); branches reached by seed selection (spec.adjust_seeds), one executed path per scenario")
 NOT_COVERED = ("CompliantContactSubsystem / ContactTrackerSubsystem (Hertz circular/elliptical, brick, elastic foundation) and ElasticFoundationForce: not attempted; "
@@ -454,6 +454,10 @@ def expspring_obligations(ctx, inst, tr):
         # friction = -mu fz vxy/|vxy|: parallel to -vxy with squared norm (mu fz)^2
         obs.append(eq(enc, tag + "Sliding = 1, limit reached: |friction|^2 = (mu fz)^2", ff2, m(lim, lim), hyps=h2))
         obs.append(eq(enc, tag + "Sliding = 1, limit reached: friction is parallel to vxy", P.sub(m(ff[0], v_P[1]), m(ff[1], v_P[0])), {}, hyps=h2))
+        # friction = -(mu fz) vxy/|vxy| (opposes slip): friction * |cxy vxy| = (mu fz) * (-cxy vxy)
+        nd = enc.root(d2n, 2, None)
+        obs.append(eqs(enc, tag + "Sliding = 1, limit reached: friction = -(mu fz) vxy/|vxy| (opposes slip)",
+                       [(m(ff[i], nd), m(lim, damp[i])) for i in range(2)], hyps=h2))
     # total force on the body and reaction on Ground
     f_P = [ff[0], ff[1], ctx.out("es_fn_2")]
     f_G = v.mv(RP, f_P)
